@@ -19,3 +19,17 @@ pub mod c09;
 pub mod c10;
 pub mod c11;
 pub mod c12;
+
+use crate::runner::CheckResult;
+use serde_json::Value;
+
+/// replay of an input found by a libFuzzer target (section "fuzz-<target>", case {"data": hex})
+pub fn fuzz_replay(id: &str, section: &str, case: &Value) -> Option<CheckResult> {
+    let data = crate::util::unhex(case["data"].as_str()?)?;
+    match section {
+        "fuzz-bytes" => Some(crate::oracle::fuzz_bytes(id, &data)),
+        "fuzz-args" => Some(crate::oracle::fuzz_args(&data)),
+        "fuzz-fibex" => c12::replay("damage", &serde_json::json!({"base": {"Raw": case["data"]}, "damage": "None", "which_file": 0})),
+        _ => None,
+    }
+}
